@@ -223,16 +223,20 @@ def trace_validate(module, records, cfg=None, timeout=600, work=None, heap="4g",
                   java_opts="-Xss1g -Dtlc2.tool.queue.IStateQueue=StateDeque", allow_violation=True)
     matched = None
     bad = []
-    for l in res.infos:
-        m = re.match(r'<<"INFO", "matched", (\d+)', l)
-        if m:
-            matched = int(m.group(1))
-        m = re.match(r'<<"INFO", "bad", <<(.*)>>>>', l)
-        if m:
-            bad = [int(x) for x in re.findall(r"\d+", m.group(1))]
+    seen_bad = False
+    # TLC wraps long tuples over several lines: search the whole output
+    m = re.search(r'<<\s*"INFO",\s*"matched",\s*(\d+)\s*>>', res.out)
+    if m:
+        matched = int(m.group(1))
+    m = re.search(r'<<\s*"INFO",\s*"bad",\s*"(\[[^"]*\])"\s*>>', res.out)
+    if m:
+        bad = [int(x) for x in re.findall(r"\d+", m.group(1))]
+        seen_bad = True
     if matched is None:
         raise ToolError(f"trace validation of {module} printed no match count:\n{res.out[-3000:]}")
     os.unlink(path)
+    if matched == len(records) and not seen_bad and records:
+        raise ToolError(f"trace validation of {module} consumed the trace but printed no verdict list")
     res.bad = bad
     return (res.ok and matched == len(records) and not bad), matched, res
 
